@@ -39,6 +39,17 @@ def _builtin_call(n, env, rec, user_call=None):
         if name == 'range':
             return tuple(range(*args))
         return {'len': len, 'int': int, 'abs': abs, 'min': min, 'max': max}[name](*args)
+    if isinstance(fn, ast.Attribute) and fn.attr == 'get' and 1 <= len(n.args) <= 2 and not n.keywords \
+            and isinstance(fn.value, (ast.Dict, ast.Name)):
+        try:
+            base = rec(fn.value)
+        except Undecidable:
+            base = None
+        if isinstance(base, dict):
+            try:
+                return base.get(*[rec(a) for a in n.args])       # lookup in a literal table
+            except TypeError as e:
+                raise Undecidable('dict lookup: %s' % e)
     if user_call is not None:
         return user_call(n, env, rec)
     raise Undecidable('call ' + ast.unparse(n.func))
